@@ -160,6 +160,30 @@ class Prop(BaseProp):
             else:
                 cls = "params-differ"
             res.violate(f"{cls}:{e.kind}", f"heading {got!r}, expected {want!r}", wit)
+        # the same settings through the real configuration layer (settings file -> confuse template -> main): the headings
+        # must be the ones the Documenter produced with the Settings object built directly
+        if idx % 12 == 0:
+            import os
+            from .. import fsrun
+            with runner.sandbox() as sb:
+                cfgp = os.path.join(sb, "cfg", "s.yaml")
+                fsrun.write_yaml(cfgp, {"input": {"function_parameter_name_strip_regex": fre, "macro_parameter_name_strip_regex": mre,
+                                                  "member_parameter_name_strip_regex": mbre, "kwargs_doc_trigger_string": trig}})
+                src = os.path.join(sb, "m.cmake")
+                with open(src, "w", encoding="utf-8", newline="") as f:
+                    f.write(text)
+                home = os.path.join(sb, "home")
+                os.makedirs(os.path.join(home, ".config", "cminx"))
+                o2 = runner.run_main([src, "-s", cfgp, "-o", os.path.join(sb, "out")], cwd=sb, home=home)
+                res.count("runs_through_config_layer")
+                pg = os.path.join(sb, "out", "m.rst")
+                if not o2.ok or not os.path.exists(pg):
+                    res.violate("config-layer-run-failed", f"{o2.crash_class()} {str(o2.exc)[:200]}", wit)
+                else:
+                    heads2 = [n.arg for n in rstscan.Page(open(pg, encoding="utf-8").read()).entries() if n.name == "function"]
+                    if heads2 != all_heads:
+                        diff = [(a, b_) for a, b_ in zip(all_heads, heads2) if a != b_][:3]
+                        res.violate("signatures-differ-through-config-layer", f"settings file gives {diff} (direct Settings vs. -s file)", wit)
         # documented implementing definitions: only the kwargs flag
         impl_names = [it.impl.gt["name"] for it in mod.walk() if it.impl is not None]
         for im in doc_on_impl:
